@@ -202,6 +202,9 @@ def judgeOp (L : KV) (LK : List Kind) (att : Bool × Bool) (kj : Bool) (op : Lis
       | some _ => if after != before then some "hold:read-changed-state" else none
       | none => some "bad-op"
   -- concurrent calls of graph.StringKind for one new name must all return the same handle
+  | ["internscale", _] =>
+      if ret != "interned" then some "graph.StringKind:interning-not-a-function-at-scale (a kind name first seen after many distinct names gets a new handle on every call)"
+      else if after != before then some "graph.StringKind:read-changed-state" else none
   | ["intern", _, _] =>
       if ret != "interned" then some "graph.StringKind:interning-not-a-function (two handles for one kind name: Kinds.Remove compares handles, Kinds.Add compares names)"
       else if after != before then some "graph.StringKind:read-changed-state" else none
@@ -336,6 +339,10 @@ def step (st : MSt) (ts : List String) : MSt × String :=
         let blank (o : Obs) : Obs := if kj then o else { o with kinds := [], added := [], removed := [] }
         let o0 := blank o0'; let o1 := blank o1'
         let after := (o0, o1)
+        let op := match op with
+          | ["addlate", e] => ["addk", e, "Z"]
+          | ["dellate", e] => ["delk", e, "Z"]
+          | _ => op
         let op := if kj then op else match op with
           | ["addk", e, _] => ["kop", e]
           | ["delk", e, _] => ["kop", e]
